@@ -496,7 +496,7 @@ class Interp:
 
     def while_loop(self, header, body):
         cond = header[len("while "):]
-        fuel = 2000000
+        fuel = 100000
         while True:
             v = self.ev(cond)
             if not v:
